@@ -146,13 +146,13 @@ func (e *linEngine) guards(v ssa.Value, iv ival) ival {
 		}
 		op := bo.Op
 		var k int64
-		if bo.X == v {
+		if sameQuantity(bo.X, v) {
 			kk, isC := constI64(bo.Y)
 			if !isC {
 				continue
 			}
 			k = kk
-		} else if bo.Y == v {
+		} else if sameQuantity(bo.Y, v) {
 			kk, isC := constI64(bo.X)
 			if !isC {
 				continue
@@ -226,6 +226,22 @@ func (e *linEngine) guards(v ssa.Value, iv ival) ival {
 		}
 	}
 	return iv
+}
+
+// sameQuantity: the same SSA value, or two len()/cap() calls on the same operand (go/ssa shares no sub-expressions;
+// a slice header is immutable between the two reads because SSA values are).
+func sameQuantity(a, b ssa.Value) bool {
+	if a == b {
+		return true
+	}
+	ca, ok1 := a.(*ssa.Call)
+	cb, ok2 := b.(*ssa.Call)
+	if !ok1 || !ok2 {
+		return false
+	}
+	ba, ok1 := ca.Call.Value.(*ssa.Builtin)
+	bb, ok2 := cb.Call.Value.(*ssa.Builtin)
+	return ok1 && ok2 && ba.Name() == bb.Name() && (ba.Name() == "len" || ba.Name() == "cap") && len(ca.Call.Args) == 1 && len(cb.Call.Args) == 1 && ca.Call.Args[0] == cb.Call.Args[0]
 }
 
 func isLenLike(v ssa.Value) bool {
